@@ -231,8 +231,39 @@ def merge(a, b):
 def empty():
     return {'levels': {}, 'disagreements': [], 'violations': []}
 
+def s_oppool(tier, rng, evs=EVS, mode='eval'):
+    out = []
+    for ev in evs:
+        lits = {'i64': ['0', '1', '2', '3', '63', '64', '4294967296', '9223372036854775807'],
+                'number': ['0', '1', '2', '3', '0.5', '63', '64', '4294967296', '9223372036854775807', '21'],
+                'f64': ['0', '1', '2', '0.5', '170', '171', '1000000000000000000000'],
+                'decimal': ['0', '1', '2', '0.5', '28', '79228162514264337593543950335', '0.0000000000000000000000000001'],
+                'complex': ['0', '1', '2', '0.5', 'i', '2i']}[ev]
+        for ph in gen.ph_pool(ev):
+            for op in gen.BINOPS[ev]:
+                for y in lits:
+                    out.append(case(ev, mode, ph, '@' + op + y))
+                    out.append(case(ev, mode, ph, '@' + op + '-' + y))
+                    out.append(case(ev, mode, ph, y + op + '@'))
+                    out.append(case(ev, mode, ph, '(-' + y + ')' + op + '@'))
+                out.append(case(ev, mode, ph, '@' + op + '@'))
+                out.append(case(ev, mode, ph, '@' + op + '-@'))
+            for f in gen.F1[ev]:
+                out.append(case(ev, mode, ph, f + '(@)'))
+                out.append(case(ev, mode, ph, f + '(-@)'))
+            for f in gen.F2[ev]:
+                for y in lits[:4]:
+                    out.append(case(ev, mode, ph, f + '(@,' + y + ')'))
+                    out.append(case(ev, mode, ph, f + '(' + y + ',@)'))
+                    out.append(case(ev, mode, ph, f + '(@,-' + y + ')'))
+                out.append(case(ev, mode, ph, f + '(@,@)'))
+            for f in gen.FV[ev]:
+                out.append(case(ev, mode, ph, f + '(@,1,-@)'))
+                out.append(case(ev, mode, ph, f + '(@,@)'))
+    return out
+
 def run_C01(tier, rng, stats):
-    cs = (s_tokseq(tier, rng) + s_tokseq_full(tier, rng) + s_chars(tier, rng) + s_wf(tier, rng, nq=250, nt=2500) +
+    cs = (s_oppool(tier, rng) + s_tokseq(tier, rng) + s_tokseq_full(tier, rng) + s_chars(tier, rng) + s_wf(tier, rng, nq=250, nt=2500) +
           s_mut(tier, rng, nq=250, nt=2500) + s_badlits(tier, rng) + s_aggfail(tier, rng) + s_loops(tier, rng))
     stats['rule'] = ('all token sequences <= %d (small alphabet) and <= %d (full alphabet), all strings <= %d chars over a lexer alphabet, '
                      'grammar-directed random expressions x placeholder pool, near-miss mutants, malformed literals, aggregates around failing '
@@ -408,6 +439,8 @@ def run_C09(tier, rng, stats):
             for y in lit2:
                 cs.append(case('number', 'eval', p, '@' + op + y))
                 cs.append(case('number', 'eval', p, y + op + '@'))
+                cs.append(case('number', 'eval', p, '@' + op + '-' + y))
+                cs.append(case('number', 'eval', p, '(-' + y + ')' + op + '@'))
             cs.append(case('number', 'eval', p, '@' + op + '@'))
             cs.append(case('number', 'eval', p, '@' + op + '(-@)'))
         for e in ['-@', 'abs(@)', 'sgn(@)', 'floor(@)', 'ceil(@)', 'round(@)', 'trunc(@)', '@!', '⌊@⌋', '⌈@⌉', 'sqrt(@)', '@²', '2^@', '@^0.5', '@^-1', '@^-2']:
@@ -990,3 +1023,271 @@ def run_C11(tier, rng, stats):
 
 PROPS['C11'] = {}
 PROPS['C02'] = PROPS.get('C02', {})
+
+# ============================================================================ C19 literals and print / re-read
+import subprocess as _sp
+def ask_primsrv(lines):
+    p = _sp.run([os.path.join(vlib.ROOT, 'harness/target/debug/primsrv')], input='\n'.join(lines) + '\n', stdout=_sp.PIPE, text=True)
+    return p.stdout.split('\n')[:len(lines)]
+
+def lit_reference(ev, text):
+    """independent reading of a plain literal text; None = not decided here"""
+    from fractions import Fraction as Fr
+    if text.count('.') > 1 or not text.replace('.', '').isdigit() or text.startswith('.') and ev == 'i64':
+        return None
+    if ev == 'i64':
+        if '.' in text:
+            return None
+        z = int(text)
+        return ('OK %d' % z) if z <= 2**63 - 1 else 'ERR'
+    if ev == 'f64':
+        return 'OK ' + f2w(float(text if not text.startswith('.') else '0' + text))
+    if ev == 'number':
+        if '.' in text:
+            return 'OK F' + f2w(float(text if not text.startswith('.') else '0' + text))
+        z = int(text)
+        return ('OK I%d' % z) if z <= 2**63 - 1 else 'ERR'
+    if ev == 'complex':
+        return 'OK ' + f2w(float(text if not text.startswith('.') else '0' + text)) + ',' + f2w(0.0)
+    return None
+
+def run_C19(tier, rng, stats):
+    lits = set()
+    digs = '0179'
+    for n in range(1, 4 if tier == 'quick' else 5):
+        for t in _it.product(digs, repeat=n):
+            s = ''.join(t)
+            lits.add(s)
+            for j in range(0, n + 1):
+                lits.add(s[:j] + '.' + s[j:])
+    lits |= {'9007199254740993', '9007199254740992', '9007199254740991', '0.1', '0.2', '0.3', '00012', '0.50', '007.50', '1.0',
+             '9223372036854775807', '9223372036854775808', '18446744073709551615', '18446744073709551616', '4.35', '0.57', '2.675',
+             '17976931348623157' + '0' * 292, '17976931348623158' + '0' * 292, '17976931348623159' + '0' * 292,
+             '179769313486231580793728971405303415079934132710037826936173778980444968292764750946649017977587207096330286416692887910946555547851940402630657488671505820681908902000708383676273854845817711531764475730270069855571366959622842914819860834936475292719074168444365510704342711559699508093042880177904174497791',
+             '0.' + '0' * 323 + '2470328229206232720882843964341106861825299013071623822127928412503377536351043',
+             '0.' + '0' * 323 + '2470328229206232720882843964341106861825299013071623822127928412503377536351044',
+             '0.' + '0' * 323 + '4940656458412465', '0.' + '0' * 400 + '1', '1' * 30, '1' * 20 + '.' + '5' * 20, '9' * 400, '1' + '0' * 308, '1' + '0' * 309,
+             '79228162514264337593543950335', '79228162514264337593543950336', '7.9228162514264337593543950335', '0.0000000000000000000000000001',
+             '0.00000000000000000000000000001', '1234567890123456789012345678', '12345678901234567890123456789', '1.234567890123456789012345678',
+             '0.1234567890123456789012345678', '123456789012345678901234567.8'}
+    for _ in range(300 if tier == 'quick' else 5000):
+        n = 1 + rng.below(25)
+        s = ''.join(str(rng.below(10)) for _ in range(n))
+        if rng.chance(1, 2):
+            j = rng.below(n + 1)
+            s = s[:j] + '.' + s[j:]
+        lits.add(s)
+    lits.discard('.')
+    cs = []
+    for ev in EVS:
+        for l in sorted(lits):
+            cs.append(case(ev, 'eval', None, l))
+            if ev == 'complex':
+                cs.append(case(ev, 'eval', None, l + 'i'))
+    cases, outs, model = run_streams(cs, stats)
+    res = std_judge('C19', cases, outs, model)
+    n = nd = 0
+    for c, x in zip(cases, outs['debug']):
+        text = dec_expr(c[3])
+        want = lit_reference(c[0], text)
+        if want is None:
+            continue
+        n += 1
+        got = vlib.strip_ticks(x)
+        if got != want:
+            nd += 1
+            res['violations'].insert(0, {'kind': 'literal-value', 'cases': [list(c)], 'observed': got, 'expected': want,
+                                         'why': 'literal %s: got %s, the correctly rounded / exact value is %s' % (text[:40], got, want)})
+    res['levels']['literal-vs-independent-reading'] = (n, nd)
+    # decimal literals: exact when <= 28 significant digits
+    from fractions import Fraction as Fr
+    for c, x in zip(cases, outs['debug']):
+        if c[0] != 'decimal':
+            continue
+        text = dec_expr(c[3])
+        if text.count('.') > 1 or text.startswith('.') and False:
+            continue
+        sig = text.replace('.', '').lstrip('0')
+        if len(sig) <= 28 and len(text.split('.')[1] if '.' in text else '') <= 28 and text.replace('.', '').isdigit():
+            t2 = text if not text.startswith('.') else '0' + text
+            want = Fr(t2 if not t2.endswith('.') else t2[:-1])
+            if want >= 2**96:
+                continue
+            got = value_of_out('decimal', vlib.strip_ticks(x))
+            if got != want:
+                res['violations'].insert(0, {'kind': 'literal-value', 'cases': [list(c)], 'observed': x, 'expected': str(want),
+                                             'why': 'decimal literal %s is not exact' % text})
+    # print / re-read
+    vals = {'f64': [], 'i64': [], 'decimal': [], 'complex': []}
+    fl = [x for x in gen.F64_PH if x == x and abs(x) != float('inf')] + [0.1, 1e21, 1e-7, 123456.789, 5e-324, 1.7976931348623157e308, 2.5e-308]
+    for _ in range(300 if tier == 'quick' else 20000):
+        b = rng.next()
+        x = w2f('%016x' % b)
+        if x == x and abs(x) != float('inf'):
+            fl.append(x)
+    vals['f64'] = fl
+    vals['i64'] = [z for z in [int(p) for p in gen.ph_pool('i64')] if z != -2**63] + [rng.next() - 2**63 + 1 for _ in range(200)]
+    vals['decimal'] = gen.DEC_PH + ['%d/%d' % (rng.next() % 10**(1 + rng.below(28)), rng.below(29)) for _ in range(200)] + \
+                      ['-%d/%d' % (rng.next() % 10**(1 + rng.below(20)), rng.below(29)) for _ in range(100)]
+    cpx = [(a, b) for a in fl[:12] for b in fl[:12]]
+    reqs = ['display_f64 ' + f2w(x) for x in vals['f64']] + ['ddisplay ' + d for d in vals['decimal']] + \
+           ['display_cpx %s,%s' % (f2w(a), f2w(b)) for a, b in cpx]
+    reps = ask_primsrv(reqs)
+    rt = []
+    k = 0
+    for x in vals['f64']:
+        rt.append((case('f64', 'eval', None, reps[k]), 'OK ' + f2w(x))); k += 1
+    for d in vals['decimal']:
+        rt.append((case('decimal', 'eval', None, reps[k]), 'OK ' + d)); k += 1
+    for a, b in cpx:
+        rt.append((case('complex', 'eval', None, reps[k]), 'OK %s,%s' % (f2w(a), f2w(b)))); k += 1
+    for z in vals['i64']:
+        rt.append((case('i64', 'eval', None, str(z)), 'OK %d' % z))
+    cases2, outs2, model2 = run_streams([c for c, _ in rt], stats)
+    merge(res, std_judge('C19', cases2, outs2, model2))
+    idx = {c: i for i, c in enumerate(cases2)}
+    n = nd = 0
+    for c, want in rt:
+        got = vlib.strip_ticks(outs2['debug'][idx[c]])
+        n += 1
+        ok = got == want
+        if not ok and c[0] in ('decimal',):
+            ok = value_of_out('decimal', got) is not None and value_of_out('decimal', got) == value_of_out('decimal', want)
+        if not ok and c[0] == 'complex' and got.startswith('OK ') :
+            ga = [w2f(t) for t in got[3:].split(',')]; wa = [w2f(t) for t in want[3:].split(',')]
+            ok = ga == wa       # numeric equality: "-0+2i" re-reads as 0+2i
+        if not ok:
+            nd += 1
+            res['violations'].insert(0, {'kind': 'reread', 'cases': [list(c)], 'observed': got, 'expected': want,
+                                         'why': 'the printed form %r of a result does not read back to the same value' % dec_expr(c[3])[:60]})
+    res['levels']['print-reread'] = (n, nd)
+    stats['rule'] = ('all literal texts of <= %d digits over {0,1,7,9} with every position of the point, boundary literals (2^53 neighbours, halfway cases, largest/smallest doubles in full digits, '
+                     '28/29-digit decimals, 400-digit runs), random literals up to 25 digits, in all five evaluators (with an i suffix in eval_complex), each compared with an independent reading '
+                     '(Python float / int / Fraction); print / re-read of pool and random finite values of f64, i64, Decimal, Complex through format!("{}")' % (3 if tier == 'quick' else 4))
+    return res
+
+PROPS['C19'] = {}
+
+# ============================================================================ C16 purity: histories and threads
+def run_C16(tier, rng, stats):
+    n = 1500 if tier == 'quick' else 100000
+    base = []
+    for ev in EVS:
+        g = ExprGen(rng, ev)
+        exprs = [g.expr(1 + rng.below(3)) for _ in range(60)] + [gen.mutate(rng, g.expr(2)) for _ in range(20)] + \
+                ['@', '@+1', '1/0', 'w(-1)', '1.2.3', '2^63', 'med(1,0/0)', '(', '']
+        pool = gen.ph_pool(ev)
+        base.append((ev, exprs, pool))
+    hist = []
+    for i in range(n):
+        ev, exprs, pool = base[rng.below(len(base))]
+        # repeated expressions with changing placeholders, and failing inputs in between
+        e = exprs[rng.below(12)] if rng.chance(1, 2) else rng.choice(exprs)
+        hist.append(case(ev, 'eval', rng.choice(pool), e))
+    lines = ['\t'.join(c) for c in hist]
+    import subprocess
+    res = empty()
+    outs = {}
+    for prof in ('debug', 'release'):
+        exe = os.path.join(vlib.ROOT, 'harness/target', prof, 'hist_runner')
+        p = subprocess.run([exe, '16'], input='\n'.join(lines) + '\n', stdout=subprocess.PIPE, text=True, timeout=1800, env=vlib.ENV)
+        o = p.stdout.split('\n')[:len(lines)]
+        if len(o) != len(lines) or p.returncode != 0:
+            res['violations'].append({'kind': 'history-runner-died', 'cases': [list(hist[0])], 'observed': 'exit %s' % p.returncode,
+                                      'why': 'the history runner did not complete'})
+            o = o + ['ABORT'] * (len(lines) - len(o))
+        outs[prof] = o
+    uniq = list(dict.fromkeys(hist))
+    model = dict(zip(uniq, vlib.run_model(['\t'.join(c) for c in uniq])))
+    stats['evaluations'] = stats.get('evaluations', 0) + len(hist) * 2 * 18 + len(uniq)
+    stats['distinct_nontrivial'] = stats.get('distinct_nontrivial', 0) + sum(1 for c in uniq if not is_trivial(model[c]))
+    stats['samples'] = [{'ev': c[0], 'placeholder': c[2], 'expr': dec_expr(c[3]), 'history_result': outs['debug'][i], 'isolated_model': model[c]}
+                        for i, c in enumerate(hist[:8])]
+    for prof in outs:
+        nd = 0
+        for i, (c, x) in enumerate(zip(hist, outs[prof])):
+            if x.startswith('NONDET'):
+                nd += 1
+                res['violations'].append({'kind': 'history-dependent', 'cases': [list(c)], 'profile': prof, 'observed': x,
+                                          'why': 'call %d of the history returned different results in different orders / threads' % i})
+            elif x != model[c]:
+                nd += 1
+                res['violations'].append({'kind': 'model-disagreement', 'cases': [list(c)], 'profile': prof, 'observed': x, 'expected': model[c],
+                                          'why': 'call %d of the history returned %s, the isolated (pure) model evaluation is %s' % (i, x, model[c])})
+        res['levels']['history+16-threads/' + prof] = (len(hist), nd)
+    stats['rule'] = ('one history of %d calls mixing the five evaluators, repeated expressions with changing placeholders and error-producing inputs, replayed in order, in reverse order and '
+                     'concurrently on 16 threads (each thread in its own order), debug and release; every result compared with the sequential one and with the pure model evaluated in isolation' % n)
+    return res
+
+PROPS['C16'] = {}
+
+# ============================================================================ C17 feature subsets
+def run_C17(tier, rng, stats):
+    import subprocess, shutil
+    feats = ['eval_f64', 'eval_i64', 'eval_decimal', 'eval_complex', 'eval_number']
+    evof = {'eval_f64': 'f64', 'eval_i64': 'i64', 'eval_decimal': 'decimal', 'eval_complex': 'complex', 'eval_number': 'number'}
+    allsubs = [list(c) for n in range(1, 6) for c in _it.combinations(feats, n)]
+    if tier == 'quick':
+        subs = [[f] for f in feats] + [['eval_f64', 'eval_decimal'], ['eval_decimal', 'eval_complex', 'eval_number'], feats]
+    else:
+        subs = allsubs
+    # corpus: regression expressions (operator pairs incl. the i64-only categories) + random ones per evaluator
+    corpus = []
+    for c in s_oppairs('quick', rng):
+        if c[1] == 'eval':
+            corpus.append(c)
+    corpus = corpus[::7]
+    corpus += s_wf('quick', rng, nq=120 if tier == 'quick' else 400)
+    corpus = list(dict.fromkeys(corpus))
+    lines = ['\t'.join(c) for c in corpus]
+    base = vlib.run_impl(lines, 'debug')
+    basemap = {c: vlib.strip_ticks(o) for c, o in zip(corpus, base)}
+    res = empty()
+    probe = os.path.join(vlib.ROOT, 'featprobe')
+    lock = os.path.join(probe, 'Cargo.lock')
+    if not os.path.exists(lock):
+        shutil.copy(os.path.join(vlib.REPO, 'Cargo.lock'), lock)
+    tdir = os.path.join(vlib.BUILD, 'feat_target')
+    env = dict(vlib.ENV, CARGO_TARGET_DIR=tdir)
+    nb = nbf = ncmp = ndiff = 0
+    built = []
+    for S in subs:
+        nb += 1
+        # the library itself, alone, with exactly this subset
+        p0 = subprocess.run(['cargo', 'build', '--offline', '--no-default-features', '--features', ' '.join(S)], cwd=vlib.REPO,
+                            stdout=subprocess.PIPE, stderr=subprocess.STDOUT, text=True, env=env)
+        p = subprocess.run(['cargo', 'build', '--offline', '--no-default-features', '--features', ' '.join(S)], cwd=probe,
+                           stdout=subprocess.PIPE, stderr=subprocess.STDOUT, text=True, env=env)
+        if p0.returncode != 0 or p.returncode != 0:
+            nbf += 1
+            msg = (p0.stdout if p0.returncode != 0 else p.stdout)
+            err = [l for l in msg.split('\n') if l.startswith('error')][:3]
+            res['violations'].append({'kind': 'feature-subset-does-not-build', 'cases': [['features', ' '.join(S), '', '']],
+                                      'observed': '; '.join(err), 'why': 'cargo build --no-default-features --features "%s" fails: %s' % (' '.join(S), '; '.join(err)[:300])})
+            continue
+        built.append(S)
+        mine = [c for c in corpus if c[0] in [evof[f] for f in S]]
+        inp = '\n'.join('\t'.join([c[0], c[2], c[3]]) for c in mine) + '\n'
+        r = subprocess.run([os.path.join(tdir, 'debug', 'featprobe')], input=inp, stdout=subprocess.PIPE, stderr=subprocess.PIPE, text=True, env=env)
+        outs = r.stdout.split('\n')[:len(mine)]
+        for c, o in zip(mine, outs):
+            ncmp += 1
+            if o != basemap[c]:
+                ndiff += 1
+                res['violations'].append({'kind': 'feature-subset-behaviour', 'cases': [list(c)], 'observed': o, 'expected': basemap[c],
+                                          'why': 'with features [%s] %s(%r) = %s, in the default build %s' % (' '.join(S), c[0], dec_expr(c[3]), o, basemap[c])})
+        if len(outs) != len(mine):
+            res['violations'].append({'kind': 'feature-subset-behaviour', 'cases': [['features', ' '.join(S), '', '']], 'observed': 'probe died',
+                                      'why': 'the probe built with [%s] did not finish the corpus' % ' '.join(S)})
+    res['levels']['feature-subsets-build+exports'] = (nb, nbf)
+    res['levels']['subset-vs-default-behaviour'] = (ncmp, ndiff)
+    stats['evaluations'] = stats.get('evaluations', 0) + ncmp + len(corpus)
+    stats['distinct_nontrivial'] = stats.get('distinct_nontrivial', 0) + sum(1 for c in corpus if not is_trivial(basemap[c]))
+    stats['samples'] = [{'features': S} for S in built[:8]] + [{'ev': c[0], 'expr': dec_expr(c[3]), 'default_build': basemap[c]} for c in corpus[:4]]
+    stats['exhaustive'] = (tier == 'thorough')
+    stats['rule'] = ('%d of the 31 non-empty feature subsets%s: the library is built alone with exactly that subset, then a probe crate that names every export that must exist and '
+                     'proves the absence of the others (glob-import ambiguity), and runs a corpus of %d expressions (all operator pairs incl. the i64-only precedence categories, random expressions) '
+                     'through the enabled evaluators; results compared with the default all-features build' % (len(subs), ' (all)' if tier == 'thorough' else '', len(corpus)))
+    return res
+
+PROPS['C17'] = {}
